@@ -16,6 +16,10 @@ def run(ctx):
     # time passes without events: nothing may happen (the hold timer of OpenSent is a large one)
     c = sc.consts("ebgp", {"ok", "hold0"}, {"annA"}, set(), {"Wait"}, 6, sessions=1)
     behs += sc.run_family(ctx, "quiet periods", c, 400 if big else 60, allpaths=True)
+    if big:
+        # all paths (not one witness per transition) over a small alphabet: real state hidden under equal abstract states
+        c = sc.consts("ebgp", {"ok", "badAS"}, {"annA", "noOrigin"}, {"badType"}, {"ManualStop", "Notification", "Wait"}, 8, sessions=2)
+        behs += sc.run_family(ctx, "all paths ebgp", c, 4000, design=False, allpaths=True)
     c = sc.consts("hold3", {"hold3", "ok"}, {"annA"}, set(), {"WriteFails", "HoldExpires"}, 6)
     behs += sc.run_family(ctx, "hold3 (keepalive write failure)", c, 2000 if big else 150)
     ctx.rule = ("one witness per transition of the BGPFSM graph (every event - OPEN classes, KEEPALIVE, UPDATE classes, NOTIFICATION, "
